@@ -75,7 +75,7 @@ def c15_runs(tier):
         ("one-cand", c15_cfg(ALL_PKGS, ALL_SITES, ALL_KINDS, ["a", "b"], False, 1), None, None, 1.0),
         ("second-file", c15_cfg(["none", "a", "ab"], ["type", "extendee", "input", "msgopt"],
                                 ["message", "field", "service", "ext"], ["a", "b"], False, 1,
-                                ["none", "a", "ab"], ["msg:b", "msgab"], ["plain", "hidden", "public"]), None, None, 0.6),
+                                ["none", "a", "ab"], ["msg:b", "msgab"], ["plain", "hidden", "public"]), None, None, 0.4),
         ("sim-deep", c15_cfg(ALL_PKGS, ALL_SITES, ALL_KINDS, ["a", "b"], True, 3, ALL_F2PKGS, ALL_F2DECLS, ALL_RELS),
          4, 5, 1.0),
     ]
@@ -127,8 +127,8 @@ def c19_runs(tier):
     if tier == "thorough":
         return [
             ("two-imports", c19_cfg(2, ALL_ROUTES, ["plain", "public"], ALL_USES, ["absent", "unused", "used"]), None, None, 1.0),
-            ("three-imports", c19_cfg(3, ALL_ROUTES, ["plain", "public"], ["none", "type", "optname"], ["absent", "unused"]),
-             None, None, 0.5),
+            ("three-imports", c19_cfg(3, ["direct", "reexp", "chain"], ["plain", "public"], ["none", "type", "optname"], ["absent"]),
+             None, None, 1.0),
             ("sim-three", c19_cfg(3, ALL_ROUTES, ["plain", "public"], ALL_USES, ["absent", "unused", "used"]), 60, 6, 1.0),
         ]
     return [
@@ -333,7 +333,8 @@ def run(pid, tier, replay=None):
             # configurations, the maximum over runs is a lower bound for the union
             feats_nt = max(feats_nt, stats.get("distinct_nontrivial", 0))
             feats_all = max(feats_all, stats.get("distinct_features", 0))
-            bounds.append({"run": name, "simulate": sim, "tlc_states": r.distinct, "exported": cnt["seen"],
+            bounds.append({"run": name, "simulate": sim, "exhaustive": sim is None and keep >= 1.0, "keep_fraction": keep,
+                           "tlc_states": r.distinct, "exported": cnt["seen"],
                            "replayed": cnt["sent"], "evaluations": stats.get("evaluations", 0),
                            "tlc_wall_s": round(r.wall, 1)})
         nontrivial, distinct = feats_nt, feats_all
@@ -355,7 +356,7 @@ def run(pid, tier, replay=None):
         "rule": RULES[pid],
         "outcomes": total.get("outcomes", {}), "tolerated": total.get("tolerated", {}),
         "samples": total.get("samples") or [{"note": "no sample recorded"}],
-        "exhaustive": True, "bounds": bounds,
+        "exhaustive": any(b.get("exhaustive") for b in bounds), "bounds": bounds,
     }, ASSUMPTIONS[pid], time.time() - t0, violations=len(verdict.violations), known=verdict.known_hits)
     return rc
 
